@@ -3524,6 +3524,17 @@ _TD('C10', 'held-out-C10-ref14-crc-lazy-table', '../../twins/C10-ref14/patch.dif
 _TD('C10', 'held-out-C07-ref16-crc-class-table', '../../twins/C07-ref16/patch.diff')
 _TD('C10', 'held-out-C10-ref16-assembled-pattern', '../../twins/C10-ref16/patch.diff')
 
+# ---- C10 wave-6 lessons (held-out material loaded from the corpora)
+_TD('C10', 'held-out-C07-ref19-magic-through-is-public', '../../twins/C07-ref19/patch.diff')
+_TD('C10', 'held-out-C16-ref18-magic-through-shared-helper', '../../twins/C16-ref18/patch.diff')
+_TD('C10', 'held-out-C10-ref19-is-ascii-translate-tables', '../../twins/C10-ref19/patch.diff')
+_MD('C10', 'held-out-w5mut1-render-cache-forgets-headers', '../../seeded/C10-w5mut1/patch.diff', 'C10.7')
+_MD('C10', 'held-out-w5mut2-return-before-crc-comparison', '../../seeded/C10-w5mut2/patch.diff', 'C10.6')
+_MD('C10', 'held-out-w5mut3-body-decoded-line-by-line', '../../seeded/C10-w5mut3/patch.diff', 'C10.6')
+M('C10', 'crc-skipped-for-blocks-without-hashes', TY, "        if m['hashes'] is not None:\n            m['hashes'] = m['hashes'].split(',')", "        if m['hashes'] is None and m['headers'] is None:\n            m['body'] = bytearray(base64.b64decode(m['body'].encode()))\n            return m\n\n        if m['hashes'] is not None:\n            m['hashes'] = m['hashes'].split(',')", 'C10.6')
+M('C10', 'body-decoded-per-line-comprehension', TY, "                m['body'] = bytearray(base64.b64decode(m['body'].encode()))", "                m['body'] = bytearray(b''.join(base64.b64decode(line.encode()) for line in m['body'].split('\\n')))", 'C10.6')
+M('C10', 'key-magic-is-public-inverted', PGP, "        return '{:s} KEY BLOCK'.format('PUBLIC' if (isinstance(self._key, Public) and not isinstance(self._key, Private)) else", "        return '{:s} KEY BLOCK'.format('PUBLIC' if not self.is_public else", 'C10.4')
+
 # =============================================================================================== C11
 M('C11', 'escape-two-spaces', PGP, "        return re.subn(r'^-', '- -', text, flags=re.MULTILINE)[0]", "        return re.subn(r'^-', '-  -', text, flags=re.MULTILINE)[0]", 'C11.1')
 M('C11', 'unescape-no-multiline', PGP, "        return re.subn(r'^- ', '', text, flags=re.MULTILINE)[0]", "        return re.subn(r'^- ', '', text)[0]", 'C11.1')
@@ -3748,6 +3759,10 @@ M('C11', 'cleartext-new-compression-before-split', PGP, "        if charset:\n  
 T('C11', 'twin-new-compression-only-for-literal-else-branch', PGP, "        if cleartext:\n            msg |= message\n\n        else:", "        if cleartext:\n            msg |= message\n            msg._compression = CompressionAlgorithm.Uncompressed\n\n        else:")
 T('C11', 'twin-new-compression-stored-but-export-skips-cleartext', PGP, "            msg |= lit\n            msg._compression = compression\n", "            msg |= lit\n\n        msg._compression = compression\n",
   more=[(PGP, "    def __bytearray__(self):\n        if self.is_compressed:\n            comp = CompressedData()", "    def __bytearray__(self):\n        if self.is_compressed and self.type != 'cleartext':\n            comp = CompressedData()")])
+
+# ---- C11 wave-6 lessons
+_MD('C11', 'held-out-w5mut2-input-crlf-normalised-before-matching', '../../seeded/C11-w5mut2/patch.diff', 'C11.2')
+M('C11', 'input-stripped-before-matching', TY, "        m = Armorable.__armor_regex.search(text)\n", "        m = Armorable.__armor_regex.search(text.strip() + '\\n')\n", 'C11.2')
 
 # =============================================================================================== C09
 M('C09', 'enc-191', TY, "            if 192 > nl:\n                return Header.int_to_bytes(nl)", "            if 191 > nl:\n                return Header.int_to_bytes(nl)", 'C09.1')
